@@ -5,6 +5,7 @@ entry point (b), chunk-list totals and emission (c), refusal before emission and
 reported totals (d), decoder capacity check (e).  Not decided: behaviour under
 source fragmentation (that is C17's retry discipline)."""
 from .. import cast, sym, lin, bitdom, front
+from .common import distinct_enums
 from ..sym import C, fmt, linearize as L
 from ..lin import Lin
 from ..bitdom import BV, Ptr
@@ -188,6 +189,37 @@ def run(ck):
     def eq(facts, a, b_):
         d = (a if isinstance(a, Lin) else L(a)) - (b_ if isinstance(b_, Lin) else L(b_))
         return eng.entails(facts, d) and eng.entails(facts, -d)
+
+    # ---- C13.a wrappers: the varint front end lenp_X(args) is flenp_X(LENP_VARIABLE, args) ------------------------
+    names = sorted(n for n in u.functions_in_file('length-prefix.h') if n.startswith('lenp_'))
+    ck.floor('C13.a', 'lenp_* wrappers in length-prefix.h', len(names), 11)
+    distinct_enums(ck, u, 'C13.a', ('LENP_',), 'include/ufw/length-prefix.h')
+    VAR = u.enums.get('LENP_VARIABLE')
+    engw = sym.Engine(u, sizeof=so, inline=set())
+    for w in names:
+        ck.function(w)
+        try:
+            ps = engw.paths(w)
+        except (sym.Unsupported, sym.PathLimit) as e:
+            ck.broken('C13.a', w, 'include/ufw/length-prefix.h', str(e))
+            continue
+        bad = None
+        params = [('v', q['name']) for q in u.params(w)]
+        for p in ps:
+            cs = [e for e in p.effects if e.kind in ('call', 'icall')]
+            if len(cs) != 1 or cs[0].name != 'f' + w:
+                bad = 'does not forward to f%s: %s' % (w, [e.name for e in cs])
+                continue
+            a = list(cs[0].args)
+            if not a or a[0] != C(VAR):
+                nm = [k for k, v in u.enums.items() if k.startswith('LENP_') and a and a[0] == C(v)]
+                bad = ('selects prefix kind %s, the lenp_ family is the variable-length (varint) encoding: frames of 128 octets and more get a different prefix than the '
+                       'decoder of the same family expects' % (nm[0] if nm else (fmt(a[0]) if a else '?')))
+            elif [strip_cast(x) for x in a[1:]] != params:
+                bad = 'arguments are passed on as (%s)' % ', '.join(fmt(x) for x in a[1:])
+            elif strip_cast(p.ret) != cs[0].result:
+                bad = 'the result of f%s is not returned' % w
+        ck.verdict(bad is None, 'C13.a', w, cast.where(u.fn(w)), 'forwards to f%s(LENP_VARIABLE, ...) unchanged' % w if bad is None else bad)
 
     # ---- C13.b encoders from a buffer ------------------------------------------------
     def reader(fn, callee, ptr_i, len_i, counted):
